@@ -331,48 +331,68 @@ def model_outcomes(thread_ops, prefix=()):
     for ti, ops in enumerate(thread_ops):
         s = []
         for oi, (op, step) in enumerate(ops):
+            # announce_done is not atomic: [read status] [run+clear cleanups under their lock] [set event, run+clear callbacks]
             if op in ('cancel', 'cancel_fatal', 'fut_cancel'):
                 s.append((ti, oi, op, step, 'mark'))
-                s.append((ti, oi, op, step, 'ann'))
+                s.append((ti, oi, op, step, 'c_check'))
+                s.append((ti, oi, op, step, 'c_cleanup'))
+                s.append((ti, oi, op, step, 'c_rest'))
             elif op == 'announce':
-                s.append((ti, oi, op, step, 'ann_cleanup'))
-                s.append((ti, oi, op, step, 'ann_rest'))
+                s.append((ti, oi, op, step, 'a_check'))
+                s.append((ti, oi, op, step, 'a_cleanup'))
+                s.append((ti, oi, op, step, 'a_rest'))
             else:
                 s.append((ti, oi, op, step, 'atomic'))
         seqs.append(s)
-    from .c16 import interleavings
+    import copy as _copy
 
     outs = set()
-    for il in interleavings(seqs):
-        ref = Ref()
-        for pop in prefix:
-            ref.apply(pop, 90)
-        res = {}
-        pend_ann = {}
-        for (ti, oi, op, step, part) in il:
+    start_ref = Ref()
+    for pop in prefix:
+        start_ref.apply(pop, 90)
+    seen = set()
+    stack = [(tuple(0 for _ in seqs), start_ref, {}, {}, {})]
+    while stack:
+        pos, ref, res, pend_ann, do_cl = stack.pop()
+        sig = (pos, ref.key(), tuple(sorted(res.items())), tuple(sorted(pend_ann.items())), tuple(sorted(do_cl.items())))
+        if sig in seen:
+            continue
+        seen.add(sig)
+        if all(pos[t] == len(seqs[t]) for t in range(len(seqs))):
+            outs.add((tuple(sorted(res.items())), (ref.status, ref.exc, ref.result, ref.announced, ref.cbs_ran, ref.cl_ran)))
+            continue
+        for t in range(len(seqs)):
+            if pos[t] == len(seqs[t]):
+                continue
+            (ti, oi, op, step, part) = seqs[t][pos[t]]
+            r2 = _copy.copy(ref)
+            res2, pa2, dc2 = dict(res), dict(pend_ann), dict(do_cl)
             if part == 'atomic':
-                res[(ti, oi)] = ref.apply(op, step)
+                res2[(ti, oi)] = r2.apply(op, step)
             elif part == 'mark':
-                res[(ti, oi)] = ('ok', None)
-                if not ref.done():
-                    ref.exc = ('Fatal', 'm') if op == 'cancel_fatal' else ('Cancelled', '')
-                    pend_ann[(ti, oi)] = ref.status == 'not-started'
-                    ref.status = 'cancelled'
+                res2[(ti, oi)] = ('ok', None)
+                if not r2.done():
+                    r2.exc = ('Fatal', 'm') if op == 'cancel_fatal' else ('Cancelled', '')
+                    pa2[(ti, oi)] = r2.status == 'not-started'
+                    r2.status = 'cancelled'
                 else:
-                    pend_ann[(ti, oi)] = False
-            elif part == 'ann':
-                if pend_ann.get((ti, oi)):
-                    ref._announce()
-            elif part == 'ann_cleanup':
-                res[(ti, oi)] = ('ok', None)
-                if ref.status != 'success':
-                    ref.cl_ran += ref.cl_pending
-                    ref.cl_pending = 0
-            elif part == 'ann_rest':
-                ref.announced = True
-                ref.cbs_ran += ref.cbs_pending
-                ref.cbs_pending = 0
-        outs.add((tuple(sorted(res.items())), (ref.status, ref.exc, ref.result, ref.announced, ref.cbs_ran, ref.cl_ran)))
+                    pa2[(ti, oi)] = False
+            elif part in ('a_check', 'c_check'):
+                if part == 'a_check':
+                    res2[(ti, oi)] = ('ok', None)
+                    pa2[(ti, oi)] = True
+                dc2[(ti, oi)] = bool(pa2.get((ti, oi))) and r2.status != 'success'
+            elif part in ('a_cleanup', 'c_cleanup'):
+                if dc2.get((ti, oi)):
+                    r2.cl_ran += r2.cl_pending
+                    r2.cl_pending = 0
+            elif part in ('a_rest', 'c_rest'):
+                if pa2.get((ti, oi)):
+                    r2.announced = True
+                    r2.cbs_ran += r2.cbs_pending
+                    r2.cbs_pending = 0
+            npos = tuple(p + 1 if k == t else p for k, p in enumerate(pos))
+            stack.append((npos, r2, res2, pa2, dc2))
     return outs
 
 
